@@ -144,6 +144,9 @@ type IssuedAddr struct {
 	Index   uint32
 	Staking bool
 	Addr    string // what the API returned
+	// FromImport: known only because the restored wallet reports that many
+	// keys (its issue class is unknown)
+	FromImport bool
 }
 
 // Instance is one wallet process.
@@ -168,6 +171,7 @@ type Instance struct {
 	Wallets map[string]*WalletState
 	Current string
 	Opens   int
+	PubPass string
 }
 
 // World is one simulated run.
@@ -350,7 +354,7 @@ func (w *World) Stat(k string) { w.Stats[k]++ }
 
 // NewInstance creates a wallet process on a fresh disk (not yet opened).
 func (w *World) NewInstance(name string) *Instance {
-	inst := &Instance{Name: name, W: w, Disk: NewSimDisk(), Wallets: map[string]*WalletState{}}
+	inst := &Instance{Name: name, W: w, Disk: NewSimDisk(), Wallets: map[string]*WalletState{}, PubPass: PubPass}
 	cfg := &config.Config{Core: config.NewDefCoreConfig(), Wallet: config.NewDefWalletConfig()}
 	cfg.Wallet.Settings.AddressGapLimit = w.Knobs.GapLimit
 	inst.Cfg = cfg
@@ -376,7 +380,7 @@ func (inst *Instance) Open() error {
 	inst.handlerG, inst.workerG = nil, nil
 	inst.Pending = nil
 	inst.Current = ""
-	wm, err := masswallet.NewWalletManager(inst.srv, inst.DB, inst.Cfg, w.Params, PubPass)
+	wm, err := masswallet.NewWalletManager(inst.srv, inst.DB, inst.Cfg, w.Params, inst.PubPass)
 	if err != nil {
 		return fmt.Errorf("NewWalletManager: %w", err)
 	}
@@ -527,7 +531,9 @@ func (inst *Instance) Crash() {
 	s.CrashRequested = false
 	s.mu.Unlock()
 	s.ForgetInstance(inst)
+	keep := inst.Disk.KeepTape
 	inst.Disk = inst.Disk.CrashImage()
+	inst.Disk.KeepTape = keep
 	inst.WM = nil
 	inst.Pending = nil
 	inst.Started = false
